@@ -147,6 +147,28 @@ CLAIMED = {
              "path (hexary_*). Tie: exhaustive small domains + random + malformed stream through the Python functions and the model.",
         technique="Lean 4 proof (bit/byte arithmetic, structural induction) + exhaustive-small-domain correspondence check",
         design_ref="6/C16"),
+    "C14": dict(
+        text="Theorems (every depth, every default, every history of set/delete on keys of the tree's size, every hash function with "
+             "32-byte output; run-level hypothesis Functional db = no hash bound to two bodies in the write log) on the database-level "
+             "transcription of smt.py: the constructor builds the all-default tree (init_rep); after any history the root resolves to "
+             "the full tree of the map model (run_rep) and IS the Merkle root of the full depth-d tree with leaves H(value or default) "
+             "(root_is_merkle_root), hence history independent and equal to the initial root once everything is cleared; get returns "
+             "the last value written, KeyError iff that is blank (get_spec); branch(key) is exactly the ideal sibling list and "
+             "calc_root(key, value, branch) = root (branch_verifies); set/delete return the updated path hashes root-to-leaf "
+             "(set_returns_path); reading depends on db/root/depth only (from_db_same). The key-size guard 1..32 is C18. The bit order "
+             "of to_int(key) & mask versus the model's bit list is tied by the correspondence (keys differing at every bit position).",
+        technique="Lean 4 proof (representation invariant over a write-log database, induction over histories) + correspondence check",
+        design_ref="6/C14"),
+    "C15": dict(
+        text="Theorems (every depth, every leaf function, every tracked key, every update stream): a proof holding the tree's value and "
+             "branch for its key, fed (key, value, first n returned hashes) for each subsequent write - other keys diverging at any "
+             "bit, its own key, repeats, deletions - with n beyond the first differing bit, is accepted throughout and ends with "
+             "the final tree's value, branch and root hash (stream_tracks, update_keeps_sync, in_sync_root); a list that stops short of "
+             "the first differing bit is rejected with ValidationError (short_update_rejected) and, the proof being a value in the "
+             "model, unchanged (tied to the code by comparing the proof before/after). Tie: proof value/branch/root after every "
+             "update, all truncation lengths.",
+        technique="Lean 4 proof (sibling-list update lemma, induction over update streams) + correspondence check",
+        design_ref="6/C15"),
 }
 REASON_PENDING = "check not built yet in this revision (work in progress, see DESIGN.md section 10)"
 
